@@ -12,6 +12,7 @@ import (
 	"errors"
 	"fmt"
 	"google.golang.org/protobuf/encoding/protowire"
+	"google.golang.org/protobuf/types/dynamicpb"
 	"reflect"
 	"runtime/debug"
 	"testing"
@@ -358,6 +359,17 @@ func exec(o op, vals []value) (res obsv) {
 			res.got = fmt.Sprint(csproto.Equal(m, other))
 			res.want = "false"
 			return
+		}
+		if pm, isV2 := m.(proto.Message); isV2 && v.k.class == csproto.MessageTypeGoogle && o.uns%2 == 0 {
+			// the other operand as a dynamic message of the same descriptor: another Go type, the same message type
+			if po, ok := other.(proto.Message); ok {
+				dyn := dynamicpb.NewMessage(po.ProtoReflect().Descriptor())
+				if b, err := proto.Marshal(po); err == nil && proto.Unmarshal(b, dyn) == nil {
+					res.got = fmt.Sprintf("%v/%v", csproto.Equal(m, dyn), csproto.Equal(dyn, m))
+					res.want = fmt.Sprintf("%v/%v", proto.Equal(pm, dyn), proto.Equal(dyn, pm))
+					return
+				}
+			}
 		}
 		res.got = fmt.Sprint(csproto.Equal(m, other))
 		res.want = fmt.Sprint(rtEqual(pv, value{v.k, corpus.FreshCopy(vals[o.val2].m)}))
